@@ -22,8 +22,8 @@ MTOrder == <<"default", "m", "n", "o", "u">>      \* the harness writes files wi
 NoDep == [name |-> "", body |-> None]
 MTDefaults ==
   CASE Scenario \in {"main_edit_dir_override", "dir_edit", "alias_eval"} -> <<>>
-    [] Scenario = "defaults_permissive" -> << [name |-> "n", body |-> RolesB({"dflt"}), dep |-> NoDep] >>
-    [] Scenario = "deprecated" -> << [name |-> "n", body |-> RolesB({"dflt"}), dep |-> [name |-> "o", body |-> RolesB({"old"})]] >>
+    [] Scenario = "defaults_permissive" -> << [name |-> "n", body |-> RolesB({"dflt"}), dep |-> NoDep, removal |-> 0] >>
+    [] Scenario = "deprecated" -> << [name |-> "n", body |-> RolesB({"dflt"}), dep |-> [name |-> "o", body |-> RolesB({"old"})], removal |-> 0] >>
 
 File(c, t) == [exists |-> TRUE, mtime |-> t, content |-> c]
 Gone == [exists |-> FALSE, mtime |-> 0, content |-> NoRules]
